@@ -5,6 +5,7 @@ ShapesQuick    == {<<0, 4>>, <<3, 8>>}
 ShapesThorough == {<<0, 4>>, <<3, 8>>, <<2, 1>>}
 ShapesPool4    == {<<3, 8>>}
 HugeAll == {-1, -2, -3}
+WrapsAll == {<<-11, 4>>, <<-12, 4>>, <<-13, 8>>, <<-14, 3>>}
 ObsEmit(op, args, ret, post) ==
     PrintT(ToJson([pre |-> Pre, op |-> op, args |-> args, ret |-> ret, post |-> post]))
 ================================================================================
